@@ -476,6 +476,40 @@ def r148(ctx):
                 ctx.ok(rid, c, "frames are added by an operation that cannot refuse")
 
 
+def r1410(ctx):
+    """One row per frame. The text files of a stored path are read back by row position
+    (update_energies / the order array are assigned frame by frame in file order): every path
+    formatter emits exactly one line for every frame it visits - no frame is skipped."""
+    rid = "R-14.10"
+    tree = ctx.tree
+    n = 0
+    for cname in ("OrderPathFormatter", "EnergyPathFormatter", "PathExtFormatter"):
+        c = tree.cls(FORMATTER, cname)
+        f = next((x for x in c.body if isinstance(x, FUNC) and x.name == "format"), None)
+        if f is None:
+            raise AnalysisError(f"R-14.10: {cname}.format not found")
+        cfg = cfg_of(f)
+        loops = [L for L in walk_local(f) if isinstance(L, ast.For) and "phasepoints" in ast.unparse(L.iter)]
+        if len(loops) != 1:
+            raise AnalysisError(f"R-14.10: {cname}.format has {len(loops)} loops over the path's frames")
+        L = loops[0]
+        ys = [y for y in ast.walk(L) if isinstance(y, (ast.Yield, ast.YieldFrom))]
+        yn = [nd for y in ys for nd in cfg.nodes_of(y)]
+        if not yn:
+            ctx.bad(rid, L, f"{cname}.format yields no line inside its loop over the frames", construct=f"{cname}: no row per frame")
+            n += 1
+            continue
+        head = cfg.node_of(L)
+        body_first = [s2 for s2, lab in cfg.succ[head.id] if lab == "T"]
+        skip = any(head.id in cfg.reachable(cfg.nodes[b], avoid=yn, labels_excluded=("exc",)) for b in body_first)
+        n += 1
+        if skip:
+            ctx.bad(rid, L, f"{cname}.format can visit a frame without writing a row for it: the file then has fewer rows than the path has frames, and the loader - which assigns rows to frames by position - gives every frame after the gap the values of a later frame (same length, wrong energies / order parameters after reloading)", construct=f"{cname}: a frame can be skipped")
+        else:
+            ctx.ok(rid, L, f"{cname}: every frame yields a row")
+    return n
+
+
 def run(ctx):
     ctx.rule("R-14.5", "path-file writers write values as they are: 0.0 is never mistaken for a missing value", floor=1)
     ctx.rule("R-14.7", "the text files of a stored path are opened for writing from scratch (load_path reads the first block only)", floor=1)
@@ -492,6 +526,8 @@ def run(ctx):
     ctx.attempt(r147, ctx)
     ctx.rule("R-14.8", "load_path adds one frame per stored row by an operation that cannot refuse (same length after reloading)", floor=1)
     ctx.attempt(r148, ctx)
+    ctx.rule("R-14.10", "one row per frame in traj.txt / order.txt / energy.txt (rows are assigned to frames by position when read back)", floor=3)
+    ctx.attempt(r1410, ctx)
     ctx.rule("R-14.9", "per-iteration data of the storing / loading loops is not taken from an earlier iteration (a local defined only on some paths of a loop and read on all)", floor=5)
     from .shared import stale_iteration_value
     ctx.attempt(stale_iteration_value, ctx, "R-14.9", [FORMATTER, PATH], None, " (a frame of the stored path is given another frame's file reference, so the live path no longer matches what load_path reads back)")
@@ -500,6 +536,7 @@ def run(ctx):
 
 
 VARIANTS = [
+    B("c14-energy-row-skipped-for-empty-frame", FORMATTER, "                energy[key] = getattr(phasepoint, key, None)\n            yield self.apply_format(i, energy)", "                energy[key] = getattr(phasepoint, key, None)\n            if all(v is None for v in energy.values()):\n                continue\n            yield self.apply_format(i, energy)", "R-14.10", control=True, why="seeded C14_h"),
     B("c14-destination-from-earlier-frame", FORMATTER, "            source[pos_file] = dest\n        dest = source[pos_file]\n        new_pos.append((dest, idx))", "            source[pos_file] = dest\n        new_pos.append((dest, idx))", "R-14.9", control=True, why="seeded C14_g"),
     B("c14-load-through-refusing-append", PATH, "        frame.vel_rev = snapshot[3]\n        path.phasepoints.append(frame)", "        frame.vel_rev = snapshot[3]\n        path.append(frame)", "R-14.8", control=True, why="seeded C14_f"),
     K("c14-keep-load-append-alias", PATH, "    path = Path()\n    for snapshot, order in zip(traj[\"data\"], orderdata):", "    path = Path()\n    frames = path.phasepoints\n    for snapshot, order in zip(traj[\"data\"], orderdata):", also=[(PATH, "        frame.vel_rev = snapshot[3]\n        path.phasepoints.append(frame)", "        frame.vel_rev = snapshot[3]\n        frames.append(frame)")]),
